@@ -54,14 +54,23 @@ type skFrame struct {
 	fn     *ssa.Function
 	blk    int
 	idx    int
-	defers []*ssa.Function
+	defers []skDefer
 	binds  string // select bindings "sel@pos=idx;"
 	phase  int    // 0 normal, 1 running defers
 	wgDef  string // name of the WaitGroup whose Done is deferred (nil marker in defers)
 	ret    int    // constant boolean result being returned: -1 unknown, 0 false, 1 true
 }
 
+// skDefer: a deferred call of a skeleton function (fn), a deferred WaitGroup.Done (kind "wgdone") or a deferred
+// Unlock of a tracked mutex (kind "unlock", name = field).
+type skDefer struct {
+	fn   *ssa.Function
+	kind string
+	name string
+}
+
 type skBuilder struct {
+	race     *raceCfg
 	prog     *symex.Program
 	relevant map[*ssa.Function]bool
 	proc     *skProc
@@ -156,7 +165,9 @@ func staticCallees(fn *ssa.Function) []*ssa.Function {
 	return out
 }
 
-func computeRelevant(pkg *ssa.Package) map[*ssa.Function]bool {
+func computeRelevant(pkg *ssa.Package) map[*ssa.Function]bool { return computeRelevantRace(pkg, nil) }
+
+func computeRelevantRace(pkg *ssa.Package, rc *raceCfg) map[*ssa.Function]bool {
 	var all []*ssa.Function
 	seen := map[*ssa.Function]bool{}
 	var add func(f *ssa.Function)
@@ -185,7 +196,7 @@ func computeRelevant(pkg *ssa.Package) map[*ssa.Function]bool {
 	}
 	rel := map[*ssa.Function]bool{}
 	for _, f := range all {
-		if f.Pkg == pkg && syncOpsIn(f) {
+		if f.Pkg == pkg && (syncOpsIn(f) || rc.opsIn(f)) {
 			rel[f] = true
 		}
 	}
@@ -236,10 +247,10 @@ func frameKey(st []skFrame) string {
 	for _, f := range st {
 		fmt.Fprintf(&sb, "%s#%d.%d.%d.%d[", f.fn.String(), f.blk, f.idx, f.phase, f.ret)
 		for _, d := range f.defers {
-			if d == nil {
-				sb.WriteString("wgDone,")
+			if d.fn == nil {
+				sb.WriteString(d.kind + ":" + d.name + ",")
 			} else {
-				sb.WriteString(d.String() + ",")
+				sb.WriteString(d.fn.String() + ",")
 			}
 		}
 		sb.WriteString("]" + f.binds + "|")
@@ -263,7 +274,7 @@ func cloneStack(st []skFrame) []skFrame {
 	out := make([]skFrame, len(st))
 	copy(out, st)
 	for i := range out {
-		out[i].defers = append([]*ssa.Function(nil), st[i].defers...)
+		out[i].defers = append([]skDefer(nil), st[i].defers...)
 	}
 	return out
 }
@@ -401,13 +412,18 @@ func (b *skBuilder) expand(key string) {
 			}
 			d := top.defers[len(top.defers)-1]
 			top.defers = top.defers[:len(top.defers)-1]
-			if d == nil {
+			if d.fn == nil && d.kind == "unlock" {
+				nst := cloneStack(st)
+				b.edge(from, b.id(nst), skAction{Kind: "unlock", Ch: d.name, Pos: top.fn.Name() + " (deferred)"}, 0)
+				return
+			}
+			if d.fn == nil {
 				// deferred WaitGroup.Done
 				nst := cloneStack(st)
 				b.edge(from, b.id(nst), skAction{Kind: "wgdone", Ch: top.wgDef, Pos: top.fn.Name() + " (deferred)"}, 0)
 				return
 			}
-			st = append(st, skFrame{fn: d, ret: -1})
+			st = append(st, skFrame{fn: d.fn, ret: -1})
 			continue
 		}
 		blk := top.fn.Blocks[top.blk]
@@ -490,12 +506,14 @@ func (b *skBuilder) expand(key string) {
 			adv()
 		case *ssa.Defer:
 			if k := isWGCall(&x.Call); k == "wgdone" {
-				top.defers = append(top.defers, nil)
+				top.defers = append(top.defers, skDefer{kind: "wgdone"})
 				top.wgDef = wgName(&x.Call)
+			} else if op, name := b.race.mutexOp(&x.Call); op == "unlock" {
+				top.defers = append(top.defers, skDefer{kind: "unlock", name: name})
 			} else if f := x.Call.StaticCallee(); f != nil && b.relevant[f] {
-				top.defers = append(top.defers, f)
+				top.defers = append(top.defers, skDefer{fn: f})
 			} else if mc, ok := x.Call.Value.(*ssa.MakeClosure); ok && b.relevant[mc.Fn.(*ssa.Function)] {
-				top.defers = append(top.defers, mc.Fn.(*ssa.Function))
+				top.defers = append(top.defers, skDefer{fn: mc.Fn.(*ssa.Function)})
 			}
 			adv()
 		case *ssa.Call:
@@ -520,11 +538,25 @@ func (b *skBuilder) expand(key string) {
 				b.edge(from, b.id(nst), skAction{Kind: k, Ch: name, Pos: b.pos(ins, top.fn)}, 0)
 				return
 			}
+			if op, name := b.race.mutexOp(&x.Call); op != "" {
+				nst := cloneStack(st)
+				nst[len(nst)-1].idx++
+				b.edge(from, b.id(nst), skAction{Kind: op, Ch: name, Pos: b.pos(ins, top.fn)}, 0)
+				return
+			}
 			var callee *ssa.Function
 			if f := x.Call.StaticCallee(); f != nil {
 				callee = f
 			} else if mc, ok := x.Call.Value.(*ssa.MakeClosure); ok {
 				callee = mc.Fn.(*ssa.Function)
+			}
+			if b.race != nil && callee != nil && !b.relevant[callee] {
+				// a function literal handed to a call outside the skeleton (db.Update / db.View run it synchronously)
+				for _, a := range x.Call.Args {
+					if mc, ok := a.(*ssa.MakeClosure); ok && b.relevant[mc.Fn.(*ssa.Function)] {
+						callee = mc.Fn.(*ssa.Function)
+					}
+				}
 			}
 			adv()
 			if callee != nil && b.relevant[callee] && len(callee.Blocks) > 0 {
@@ -534,6 +566,14 @@ func (b *skBuilder) expand(key string) {
 				}
 				st = append(st, skFrame{fn: callee, ret: -1})
 			}
+		case *ssa.FieldAddr:
+			if f, k := b.race.access(x); f != "" {
+				nst := cloneStack(st)
+				nst[len(nst)-1].idx++
+				b.edge(from, b.id(nst), skAction{Kind: "acc", Ch: f + ":" + k, Pos: top.fn.Name() + " " + b.pos(ins, top.fn)}, 0)
+				return
+			}
+			adv()
 		default:
 			adv()
 		}
@@ -542,9 +582,22 @@ func (b *skBuilder) expand(key string) {
 }
 
 func buildProc(prog *symex.Program, rel map[*ssa.Function]bool, name string, root *ssa.Function) (*skProc, []string) {
-	b := &skBuilder{prog: prog, relevant: rel, proc: &skProc{Name: name}, ids: map[string]int{}, states: map[string][]skFrame{}}
+	return buildProcRace(prog, rel, name, []*ssa.Function{root}, nil)
+}
+
+// buildProcRace: with several roots the process starts by choosing one of them (an API goroutine calling one entry point).
+func buildProcRace(prog *symex.Program, rel map[*ssa.Function]bool, name string, roots []*ssa.Function, rc *raceCfg) (*skProc, []string) {
+	b := &skBuilder{prog: prog, relevant: rel, proc: &skProc{Name: name}, ids: map[string]int{}, states: map[string][]skFrame{}, race: rc}
 	b.proc.Done = 0
-	b.proc.Init = b.id([]skFrame{{fn: root, ret: -1}})
+	if len(roots) == 1 {
+		b.proc.Init = b.id([]skFrame{{fn: roots[0], ret: -1}})
+	} else {
+		b.ids["<choose>"] = len(b.ids) + 1
+		b.proc.Init = b.ids["<choose>"]
+		for _, r := range roots {
+			b.edge(b.proc.Init, b.id([]skFrame{{fn: r, ret: -1}}), skAction{Kind: "tau", Pos: "call " + r.Name()}, 0)
+		}
+	}
 	for len(b.work) > 0 {
 		k := b.work[0]
 		b.work = b.work[1:]
@@ -659,10 +712,22 @@ func chanCaps(pkg *ssa.Package) (map[string]int, []string) {
 // ---------- BMC encoding ----------
 
 type bmcModel struct {
-	procs []*skProc
-	caps  map[string]int
-	chans []string
-	wgs   []string
+	procs   []*skProc
+	caps    map[string]int
+	chans   []string
+	wgs     []string
+	pcBits  int      // width of the program counters (0 = 8)
+	mutexes []string // tracked mutexes (race mode)
+	// race mode: pairs of (process, node) whose next actions conflict, filled by smt()
+	conflicts []raceConflict
+}
+
+type raceConflict struct {
+	field      string
+	p, q       int
+	pn, qn     int
+	ppos, qpos string
+	pw, qw     bool
 }
 
 func (m *bmcModel) smt(k int, envBlocks, envTasks int) (string, []string) {
@@ -672,7 +737,7 @@ func (m *bmcModel) smt(k int, envBlocks, envTasks int) (string, []string) {
 	wgset := map[string]bool{"quitWg": true}
 	for _, p := range m.procs {
 		for _, e := range p.Edges {
-			if e.Act.Ch != "" && !strings.HasPrefix(e.Act.Kind, "wg") {
+			if e.Act.Ch != "" && !strings.HasPrefix(e.Act.Kind, "wg") && e.Act.Kind != "acc" && e.Act.Kind != "lock" && e.Act.Kind != "unlock" {
 				chset[e.Act.Ch] = true
 			}
 			if strings.HasPrefix(e.Act.Kind, "wg") {
@@ -692,9 +757,29 @@ func (m *bmcModel) smt(k int, envBlocks, envTasks int) (string, []string) {
 	sort.Strings(wgs)
 	m.wgs = wgs
 	buffered := func(c string) bool { return m.caps[c] > 0 }
+	pcw := m.pcBits
+	if pcw == 0 {
+		pcw = 8
+	}
+	mset := map[string]bool{}
+	for _, p := range m.procs {
+		for _, e := range p.Edges {
+			if e.Act.Kind == "lock" || e.Act.Kind == "unlock" {
+				mset[e.Act.Ch] = true
+			}
+		}
+	}
+	m.mutexes = nil
+	for x := range mset {
+		m.mutexes = append(m.mutexes, x)
+	}
+	sort.Strings(m.mutexes)
 	for t := 0; t <= k; t++ {
 		for i := range m.procs {
-			w("(declare-const pc%d_%d (_ BitVec 8))", i, t)
+			w("(declare-const pc%d_%d (_ BitVec %d))", i, t, pcw)
+		}
+		for _, x := range m.mutexes {
+			w("(declare-const mtx_%s_%d (_ BitVec 4))", x, t)
 		}
 		for _, c := range m.chans {
 			w("(declare-const cnt_%s_%d (_ BitVec 4))", c, t)
@@ -706,7 +791,10 @@ func (m *bmcModel) smt(k int, envBlocks, envTasks int) (string, []string) {
 	}
 	// initial state: Start() has done quitWg.Add(2) and spawned follower and worker
 	for i, p := range m.procs {
-		w("(assert (= pc%d_0 (_ bv%d 8)))", i, p.Init)
+		w("(assert (= pc%d_0 (_ bv%d %d)))", i, p.Init, pcw)
+	}
+	for _, x := range m.mutexes {
+		w("(assert (= mtx_%s_0 (_ bv0 4)))", x)
 	}
 	for _, c := range m.chans {
 		w("(assert (= cnt_%s_0 (_ bv0 4)))", c)
@@ -729,8 +817,8 @@ func (m *bmcModel) smt(k int, envBlocks, envTasks int) (string, []string) {
 	// per step transitions are generated as functions of t
 	gen := func(t int) []tr {
 		var trs []tr
-		at := func(i, n int) string { return fmt.Sprintf("(= pc%d_%d (_ bv%d 8))", i, t, n) }
-		goes := func(i, n int) string { return fmt.Sprintf("(= pc%d_%d (_ bv%d 8))", i, t+1, n) }
+		at := func(i, n int) string { return fmt.Sprintf("(= pc%d_%d (_ bv%d %d))", i, t, n, pcw) }
+		goes := func(i, n int) string { return fmt.Sprintf("(= pc%d_%d (_ bv%d %d))", i, t+1, n, pcw) }
 		cnt := func(c string, tt int) string { return fmt.Sprintf("cnt_%s_%d", c, tt) }
 		closed := func(c string, tt int) string { return fmt.Sprintf("closed_%s_%d", c, tt) }
 		// enabledness of a single (non-rendezvous) edge, ignoring pc
@@ -738,8 +826,10 @@ func (m *bmcModel) smt(k int, envBlocks, envTasks int) (string, []string) {
 		readyAlone = func(pi int, e skEdge) string {
 			c := e.Act.Ch
 			switch e.Act.Kind {
-			case "tau", "exit", "close", "wgdone", "wgadd":
+			case "tau", "exit", "close", "wgdone", "wgadd", "acc", "unlock":
 				return "true"
+			case "lock":
+				return fmt.Sprintf("(= mtx_%s_%d (_ bv0 4))", c, t)
 			case "wgwait":
 				return fmt.Sprintf("(= wg_%s_%d (_ bv0 4))", c, t)
 			case "send":
@@ -780,8 +870,13 @@ func (m *bmcModel) smt(k int, envBlocks, envTasks int) (string, []string) {
 			}
 			return "(or " + strings.Join(alts, " ") + ")"
 		}
-		frame := func(changedPC map[int]bool, changedCnt map[string]bool, changedClosed map[string]bool, wgChanged string) string {
+		frame := func(changedPC map[int]bool, changedCnt map[string]bool, changedClosed map[string]bool, wgChanged string, mtxChanged ...string) string {
 			var fs []string
+			for _, x := range m.mutexes {
+				if len(mtxChanged) == 0 || mtxChanged[0] != x {
+					fs = append(fs, fmt.Sprintf("(= mtx_%s_%d mtx_%s_%d)", x, t+1, x, t))
+				}
+			}
 			for i := range m.procs {
 				if !changedPC[i] {
 					fs = append(fs, fmt.Sprintf("(= pc%d_%d pc%d_%d)", i, t+1, i, t))
@@ -821,8 +916,12 @@ func (m *bmcModel) smt(k int, envBlocks, envTasks int) (string, []string) {
 						g = fmt.Sprintf("(and %s (not (or %s)))", g, strings.Join(others, " "))
 					}
 					trs = append(trs, tr{guard: g, effect: goes(pi, e.To) + " " + frame(map[int]bool{pi: true}, nil, nil, ""), procs: []int{pi}, label: lbl, env: env})
-				case "tau", "exit":
+				case "tau", "exit", "acc":
 					trs = append(trs, tr{guard: at(pi, e.From), effect: goes(pi, e.To) + " " + frame(map[int]bool{pi: true}, nil, nil, ""), procs: []int{pi}, label: lbl, env: env})
+				case "lock":
+					trs = append(trs, tr{guard: fmt.Sprintf("(and %s (= mtx_%s_%d (_ bv0 4)))", at(pi, e.From), c, t), effect: goes(pi, e.To) + fmt.Sprintf(" (= mtx_%s_%d (_ bv%d 4)) ", c, t+1, pi+1) + frame(map[int]bool{pi: true}, nil, nil, "", c), procs: []int{pi}, label: lbl, env: env})
+				case "unlock":
+					trs = append(trs, tr{guard: at(pi, e.From), effect: goes(pi, e.To) + fmt.Sprintf(" (= mtx_%s_%d (_ bv0 4)) ", c, t+1) + frame(map[int]bool{pi: true}, nil, nil, "", c), procs: []int{pi}, label: lbl, env: env})
 				case "close":
 					trs = append(trs, tr{guard: at(pi, e.From), effect: goes(pi, e.To) + " " + closed(c, t+1) + " " + frame(map[int]bool{pi: true}, nil, map[string]bool{c: true}, ""), procs: []int{pi}, label: lbl, env: env})
 				case "wgdone":
@@ -887,6 +986,9 @@ func (m *bmcModel) smt(k int, envBlocks, envTasks int) (string, []string) {
 			for _, g := range m.wgs {
 				fs = append(fs, fmt.Sprintf("(= wg_%s_%d wg_%s_%d)", g, t+1, g, t))
 			}
+			for _, x := range m.mutexes {
+				fs = append(fs, fmt.Sprintf("(= mtx_%s_%d mtx_%s_%d)", x, t+1, x, t))
+			}
 			return strings.Join(fs, " ")
 		}()))
 		w("(assert (or %s))", strings.Join(alts, "\n  "))
@@ -916,6 +1018,49 @@ func (m *bmcModel) smt(k int, envBlocks, envTasks int) (string, []string) {
 	}
 	w("(declare-const wgneg Bool)")
 	w("(assert (= wgneg (or %s)))", strings.Join(negs, " "))
+	// race mode: two processes whose next actions are accesses of the same tracked field, one of them a write.
+	// Locks and hand-shakes need no extra treatment: they decide which pairs of nodes are reachable together.
+	m.conflicts = nil
+	for pi, p := range m.procs {
+		for qi, q := range m.procs {
+			if qi <= pi {
+				continue
+			}
+			for _, e := range p.Edges {
+				if e.Act.Kind != "acc" {
+					continue
+				}
+				ef, ew := accField(e.Act.Ch)
+				for _, f := range q.Edges {
+					if f.Act.Kind != "acc" {
+						continue
+					}
+					ff, fw := accField(f.Act.Ch)
+					if ef == ff && (ew || fw) {
+						m.conflicts = append(m.conflicts, raceConflict{field: ef, p: pi, q: qi, pn: e.From, qn: f.From, ppos: e.Act.Pos, qpos: f.Act.Pos, pw: ew, qw: fw})
+					}
+				}
+			}
+		}
+	}
+	if len(m.conflicts) > 0 {
+		for ci, c := range m.conflicts {
+			var ts []string
+			for t := 0; t <= k; t++ {
+				ts = append(ts, fmt.Sprintf("(and (= pc%d_%d (_ bv%d %d)) (= pc%d_%d (_ bv%d %d)))", c.p, t, c.pn, pcw, c.q, t, c.qn, pcw))
+			}
+			w("(declare-const race_%d Bool)", ci)
+			w("(assert (= race_%d (or %s)))", ci, strings.Join(ts, " "))
+			// vacuity witness: each of the two access nodes is reached at some step (not necessarily the same)
+			var tp, tq []string
+			for t := 0; t <= k; t++ {
+				tp = append(tp, fmt.Sprintf("(= pc%d_%d (_ bv%d %d))", c.p, t, c.pn, pcw))
+				tq = append(tq, fmt.Sprintf("(= pc%d_%d (_ bv%d %d))", c.q, t, c.qn, pcw))
+			}
+			w("(declare-const wit_%d Bool)", ci)
+			w("(assert (= wit_%d (and (or %s) (or %s))))", ci, strings.Join(tp, " "), strings.Join(tq, " "))
+		}
+	}
 	return sb.String(), labels
 }
 
@@ -1226,8 +1371,8 @@ func checkC20(tier string, seed int, t0 time.Time) int {
 		"wall_s": round2(time.Since(t0).Seconds()), "violations": violations,
 	}
 	js, _ := json.MarshalIndent(ev, "", " ")
-	os.MkdirAll(filepath.Join(verifRoot, "evidence"), 0o755)
-	os.WriteFile(filepath.Join(verifRoot, "evidence", id+".json"), js, 0o644)
+	os.MkdirAll(evidenceDir(), 0o755)
+	os.WriteFile(filepath.Join(evidenceDir(), id+".json"), js, 0o644)
 	for _, inc := range inconclusive {
 		fmt.Println("INCONCLUSIVE", inc)
 	}
